@@ -161,14 +161,52 @@ func singleStore(a *ssa.Alloc) ssa.Value {
 				return nil
 			}
 		case *ssa.DebugRef:
+		case *ssa.MakeClosure:
+			// captured by a closure that only reads it: the variable still holds the one value stored
+			if closureWrites(x, a, 0) {
+				return nil
+			}
 		default:
-			return nil // escapes (call argument, closure, ...)
+			return nil // escapes (call argument, ...)
 		}
 	}
 	if st == nil {
 		return nil
 	}
 	return st.Val
+}
+
+// closureWrites: the closure (or one nested in it) may write the captured variable v, or lets its address escape.
+func closureWrites(mc *ssa.MakeClosure, v ssa.Value, depth int) bool {
+	fn, ok := mc.Fn.(*ssa.Function)
+	if !ok || depth > 3 {
+		return true
+	}
+	for k, b := range mc.Bindings {
+		if b != v || k >= len(fn.FreeVars) {
+			continue
+		}
+		fv := fn.FreeVars[k]
+		if fv.Referrers() == nil {
+			continue
+		}
+		for _, r := range *fv.Referrers() {
+			switch y := r.(type) {
+			case *ssa.UnOp, *ssa.DebugRef:
+			case *ssa.FieldAddr, *ssa.IndexAddr:
+				if addrWritten(y.(ssa.Value), 0) {
+					return true
+				}
+			case *ssa.MakeClosure:
+				if closureWrites(y, fv, depth+1) {
+					return true
+				}
+			default:
+				return true
+			}
+		}
+	}
+	return false
 }
 
 // addrWritten reports whether an address value (FieldAddr/IndexAddr chain) is
